@@ -818,3 +818,84 @@ Proof.
   induction h2 as [|ev h IH]; intros s Hn Hu; cbn; [exact Hu|].
   destruct (step_upd s ev u m Hn Hu) as (H1 & H2). apply IH; assumption.
 Qed.
+
+(* ================================================================ 6. the refuting histories (F29a, F29b, F29c, F36) *)
+(* every guard except one *)
+Definition but_onepending (s : st) (ev : event) : bool :=
+  wf_ev s ev && bound_ev s ev && nodelpending_ev s ev && keepuser_ev s ev.
+(* (a route deleted while pending is necessarily the only route of its next hop, so keepuser is moot) *)
+Definition but_nodelpending (s : st) (ev : event) : bool :=
+  wf_ev s ev && bound_ev s ev && onepending_ev s ev.
+Definition but_bound (s : st) (ev : event) : bool :=
+  wf_ev s ev && onepending_ev s ev && nodelpending_ev s ev && keepuser_ev s ev.
+
+(* F29a: two routes wait for next hop 1; the second overwrites the first; only the second is installed *)
+Definition h_overwritten : list event :=
+  [NewRoute (Route 0 1 0); NewRoute (Route 1 1 0); NewNeigh 1 101].
+Lemma mirror_refuted_overwritten :
+  exists ifs h, run_ok but_onepending (init ifs) h = true /\ ~ mirror (run (init ifs) h).
+Proof.
+  exists [0], h_overwritten. split; [vm_compute; reflexivity|].
+  intros M. destruct (proj2 (M 0 0)) as (g & Hg).
+  - exists 1, 101. split; vm_compute; reflexivity.
+  - vm_compute in Hg. discriminate.
+Qed.
+
+(* F29b: a route is deleted while its next hop is unresolved; it is installed when the neighbour appears *)
+Definition h_deleted_pending : list event :=
+  [NewRoute (Route 0 1 0); DelRoute (Route 0 1 0); NewNeigh 1 101].
+Lemma mirror_refuted_deleted_pending :
+  exists ifs h, run_ok but_nodelpending (init ifs) h = true /\ ~ mirror (run (init ifs) h).
+Proof.
+  exists [0], h_deleted_pending. split; [vm_compute; reflexivity|].
+  intros M. destruct (proj1 (M 0 0)) as (nh & mac & Hk & _).
+  - exists 0. vm_compute. reflexivity.
+  - vm_compute in Hk. discriminate.
+Qed.
+
+(* F29b, second face: the stale route is installed OVER the live route of another next hop, which
+   then shares next hop 1's gate and rewrite module *)
+Definition h_stale_over_live : list event :=
+  [NewRoute (Route 0 1 0); DelRoute (Route 0 1 0); NewNeigh 2 102; NewRoute (Route 0 2 0); NewNeigh 1 101;
+   NewRoute (Route 1 1 0)].
+Lemma shared_gate_refuted_stale :
+  exists ifs h, run_ok but_nodelpending (init ifs) h = true /\
+                ~ routes_share (run (init ifs) h) /\ ~ obs_gates_distinct (run (init ifs) h).
+Proof.
+  exists [0], h_stale_over_live. split; [vm_compute; reflexivity|]. split.
+  - intros R. destruct (R 0 2 0 1) as (e & He & Hg & Hk & _); try (vm_compute; reflexivity).
+    vm_compute in He. injection He as <-. vm_compute in Hg. discriminate.
+  - intros D. apply (D 0 1 2 1 0 1 1); try (vm_compute; reflexivity). discriminate.
+Qed.
+
+(* F29c: the last route of a next hop goes; the module created as <iface>DstMAC.. stays because
+   <iface>RoutesDstMAC.. is what delete_route_entry asks BESS to destroy *)
+Definition h_leak : list event := [NewNeigh 1 101; NewRoute (Route 0 1 0); DelRoute (Route 0 1 0)].
+Lemma update_used_refuted :
+  exists ifs h, run_ok good_ev (init ifs) h = true /\ ~ update_used (run (init ifs) h).
+Proof.
+  exists [0], h_leak. split; [vm_compute; reflexivity|].
+  intros U. destruct (U (MUpdI 0 101) 101) as (p & nh & i & g & _ & Hl & _); [vm_compute; reflexivity|].
+  vm_compute in Hl. discriminate.
+Qed.
+
+(* F36: one next hop reached over two interfaces: the cache is keyed by the address alone, so the
+   second interface's table uses the first interface's gate number, which there belongs to
+   another next hop *)
+Definition h_two_ifaces : list event :=
+  [NewNeigh 1 101; NewNeigh 2 102; NewRoute (Route 0 1 0); NewRoute (Route 1 2 1); NewRoute (Route 2 1 1)].
+Lemma shared_gate_refuted_two_ifaces :
+  exists ifs h, run_ok but_bound (init ifs) h = true /\
+                ~ routes_share (run (init ifs) h) /\ ~ obs_gates_distinct (run (init ifs) h).
+Proof.
+  exists [0; 1], h_two_ifaces. split; [vm_compute; reflexivity|]. split.
+  - intros R. destruct (R 2 1 1 0) as (e & He & _ & _ & (P1 & _)); try (vm_compute; reflexivity).
+    vm_compute in He. injection He as <-. vm_compute in P1. discriminate.
+  - intros D. apply (D 1 2 2 1 1 0 0); try (vm_compute; reflexivity). discriminate.
+Qed.
+
+(* non-vacuity: guarded histories that install, share, re-use and delete *)
+Definition h_good : list event :=
+  [NewRoute (Route 0 1 0); NewNeigh 1 101; NewNeigh 2 102; NewRoute (Route 1 1 0); NewRoute (Route 2 2 0);
+   NewNeigh 4 104; NewRoute (Route 3 4 1); Noise; DelRoute (Route 0 1 0); NewRoute (Route 4 3 0); NewNeigh 3 103;
+   NewRoute (Route 0 3 0); DelRoute (Route 4 3 0); NewRoute (Route 5 1 7)].
